@@ -9,6 +9,7 @@ import QuantityModel.Model.Registry
 import QuantityModel.Model.Quantity
 import QuantityModel.Model.Catalogue
 import QuantityModel.Model.Money
+import QuantityModel.Model.Allocate
 import QuantityModel.Gen.Iso4217
 import QuantityModel.Gen.Catalogue
 import QuantityModel.Gen.TempTable
@@ -468,6 +469,33 @@ def stepReg (st : DState) (args : List String) : Option (DState × String) :=
         | some e => s!"ok eq={e} hasheq={q.unitHashKey u == q.unitHashKey v}"
         | none => "err AssertionError")
     | _, _ => some (st, bad)
+  | ["q_alloc", a, ratios, disp, dflt] =>
+    match Rounding.ofName? dflt with
+    | none => some (st, bad)
+    | some d =>
+      match parseQty? r d a with
+      | some (.ok qa) =>
+        -- ratios: `n:<rat>` numbers or `q:<amount>@<unit>` quantities (reduced to
+        -- their reference values, or amounts when all share one unit)
+        let toks := if ratios == "-" then [] else ratios.splitOn ","
+        let parsed : Option (List Rat) := toks.mapM fun t =>
+          if t.startsWith "n:" then parseRat? (t.drop 2).toString
+          else if t.startsWith "q:" then
+            match parseQty? r d (t.drop 2).toString with
+            | some (.ok x) => (match q.refValue x with
+                | some v => some v
+                | none => some x.amount)
+            | _ => none
+          else none
+        match parsed with
+        | none => some (st, bad)
+        | some rs =>
+          match allocate d qa.amount (r.unitQuantum qa.unit) rs (disp == "1") with
+          | .error e => some (st, "err " ++ e.name)
+          | .ok (ps, rem) =>
+            some (st, s!"ok {",".intercalate (ps.map ratStr)}@{usym r qa.unit}:{(r.cls (r.unitCls qa.unit)).name} rem={ratStr rem}")
+      | some (.error e) => some (st, "err " ++ e.name)
+      | none => some (st, bad)
   | ["q_mixnum", op, _a, _kind] =>
     let mop : Option QState.MixOp := match op with
       | "add" => some .add | "radd" => some .radd | "sub" => some .sub | "rsub" => some .rsub
